@@ -409,6 +409,11 @@ def is_timeout(e: Exception | None) -> bool:
   return getattr(e, 'code', 0) == 4
 
 
+def _iterate_lazily(pickled_iterable: bytes):
+  """Constructs the iterable only when iterated: its errors are enqueue errors."""
+  return (yield from lazy_fns.maybe_make(pickled_iterable))
+
+
 def _maybe_pickle(obj: Any) -> Any:
   # Relying on courier's own pickler for primitives.
   if type(obj) in (str, int, float, bool, type(None)):
@@ -796,6 +801,11 @@ class CourierClient(metaclass=func_utils.SingletonMeta):
         )
     )
     # Start the remote worker to enqueue the input_iterator.
+    # The iterable is constructed by the enqueuer itself, so that an error of
+    # the construction fails the queue instead of getting lost with this call.
+    lazy_iterable = lazy_fns.trace(_iterate_lazily)(
+        lazy_fns.pickler.dumps(lazy_iterable)
+    )
     _ = self.call(
         lazy_output_q.enqueue_from_iterator(lazy_iterable),
         return_exception=True,
